@@ -254,35 +254,21 @@ Print Assumptions src_glencoe_parse_ctc_error_kinds_differ.
 (* ================================================================================================ *)
 From FM Require Import Proofs.GlencoeFacts.
 
-(* The model insists that an "optional" entry of the features table is a JSON boolean (jbool); the code takes
-   the truth value of whatever is there.  [agreeP P m c]: as [agree], the failure direction under [P]. *)
-Definition agreeP (P : Prop) {A} (m c : result A) : Prop :=
-  match m with
-  | Ok a => c = Ok a
-  | Err e => P -> exists e', c = Err e' /\ (e = FlamaException -> e' = FlamaException)
-  end.
+(* bool(v): the run-time library's reading and the model's are the same function *)
+Lemma aval_truthy_jtruthy : forall v, aval_truthy v = jtruthy v.
+Proof. intros v. destruct v as [| b | z | r | s | l | kv]; try reflexivity; [destruct l|destruct kv]; reflexivity. Qed.
 
-Lemma agree_agreeP (P : Prop) {A} (m c : result A) : agree m c -> agreeP P m c.
-Proof. destruct m as [a|e]; cbn; [auto|]. intros H _. exact H. Qed.
-
-Lemma agreeP_refl (P : Prop) {A} (m : result A) : agreeP P m m.
-Proof. apply agree_agreeP, agree_refl. Qed.
-
-Lemma agreeP_err (P : Prop) {A} e e' : e <> FlamaException -> @agreeP P A (Err e) (Err e').
-Proof. intros H. apply agree_agreeP, agree_err, H. Qed.
-
-Lemma agreeP_flama (P : Prop) {A B} (f : A -> B) :
-  agreeP P (rmap f (Err FlamaException)) (Err FlamaException).
-Proof. cbn. intros _. eexists. split; reflexivity. Qed.
+Lemma agree_flama {A B} (f : A -> B) : agree (rmap f (Err FlamaException)) (Err FlamaException).
+Proof. cbn. eexists. split; reflexivity. Qed.
 
 (* bind on the code's side, match on the model's side, under a final map of the model's value *)
-Lemma agreeP_bind (P : Prop) {A B C} (h : B -> C) (m c : result A) (f : A -> result B) (g : A -> result C) :
-  agreeP P m c -> (forall a, m = Ok a -> agreeP P (rmap h (f a)) (g a)) ->
-  agreeP P (rmap h (match m with Err e => Err e | Ok a => f a end)) (bind c g).
+Lemma agree_bind_rmap {A B C} (h : B -> C) (m c : result A) (f : A -> result B) (g : A -> result C) :
+  agree m c -> (forall a, m = Ok a -> agree (rmap h (f a)) (g a)) ->
+  agree (rmap h (match m with Err e => Err e | Ok a => f a end)) (bind c g).
 Proof.
   intros Hmc Hfg. destruct m as [a|e]; cbn in Hmc.
   - subst c. cbn [bind]. apply Hfg. reflexivity.
-  - cbn [rmap]. cbn. intros HP. destruct (Hmc HP) as (e' & -> & Hfl). cbn [bind].
+  - cbn [rmap]. cbn. destruct Hmc as (e' & -> & Hfl). cbn [bind].
     exists e'. split; [reflexivity|exact Hfl].
 Qed.
 
@@ -312,33 +298,23 @@ Proof.
   destruct (String.eqb s "FEATURE"), (String.eqb s "XOR"), (String.eqb s "OR"), (String.eqb s "GENOR"); reflexivity.
 Qed.
 
-(* every "optional" entry of the features table is a boolean *)
-Definition gl_optional_bool (fi : aval) : Prop :=
-  forall id fiv ov, jget id fi = Ok fiv -> jget "optional" fiv = Ok ov -> exists b, ov = VBool b.
-
 (* features_info[child["id"]]["optional"] *)
 Definition code_child_opt (fi c : aval) : result aval :=
   bind (bind (aval_get c "id") (fun v => aval_get_any fi v)) (fun v => aval_get v "optional").
 
+(* the model takes the truth value of the entry, as the code does (`if optional:`) *)
 Lemma child_opt_agree : forall fi c,
   match gl_child_opt fi c with
   | Ok o => exists ov, code_child_opt fi c = Ok ov /\ aval_truthy ov = o
-  | Err e => gl_optional_bool fi ->
-             exists e', code_child_opt fi c = Err e' /\ (e = FlamaException -> e' = FlamaException)
+  | Err e => exists e', code_child_opt fi c = Err e' /\ (e = FlamaException -> e' = FlamaException)
   end.
 Proof.
   intros fi c. unfold gl_child_opt, code_child_opt. rewrite aval_get_jget.
   destruct (jget "id" c) as [cid|e]; cbn [bind].
-  2:{ intros _. exists e. split; [reflexivity|auto]. }
+  2:{ exists e. split; [reflexivity|auto]. }
   pose proof (agree_finfo_get fi cid "optional") as Ha.
-  destruct (finfo_get fi cid "optional") as [ov|e] eqn:Eov; cbn in Ha.
-  2:{ intros _. exact Ha. }
-  destruct ov as [| b | z | r | s | l | kv]; cbn [jbool];
-    try (intros HP; exfalso; unfold finfo_get in Eov;
-         destruct (jstr cid) as [ids|e0]; [|discriminate];
-         destruct (jget ids fi) as [fiv|e0] eqn:Efiv; [|discriminate];
-         destruct (HP _ _ _ Efiv Eov) as (b0 & Hb0); discriminate Hb0).
-  exists (VBool b). split; [exact Ha|reflexivity].
+  destruct (finfo_get fi cid "optional") as [ov|e]; cbn in Ha; [|exact Ha].
+  exists ov. split; [exact Ha|apply aval_truthy_jtruthy].
 Qed.
 
 (* ---- the loop over the children ---- *)
@@ -358,9 +334,7 @@ Definition kids_group (plain : bool) (kids : list (pfeature * bool)) : list feat
   if plain then [] else map erase (map fst (filter (fun ko : pfeature * bool => snd ko) kids)).
 
 Section Loop.
-  Variable P : Prop.
   Variable fi : aval.
-  Hypothesis HP : P -> gl_optional_bool fi.
   Variable rec : path -> aval -> result pfeature.
   Variable crec : option feature -> aval -> result feature.
   Variable here : path.
@@ -372,13 +346,13 @@ Section Loop.
     = bind (crec (Some f) c) (fun cf => bind (code_child_opt fi c) (fun ov => code_upd plain rel f ch cf (aval_truthy ov))).
 
   Lemma gl_loop_agree : forall chl,
-    (forall c, In c chl -> forall h par, agreeP P (rmap erase (rec h c)) (crec par c)) ->
+    (forall c, In c chl -> forall h par, agree (rmap erase (rec h c)) (crec par c)) ->
     forall p rel i rs ch,
     match gl_goc rec fi here wh p chl with
     | Ok kids => exists rel', foldM F chl (rel, Feature i rs, ch)
                               = Ok (rel', Feature i (rs ++ kids_rels plain kids), ch ++ kids_group plain kids)
-    | Err e => P -> exists e', foldM F chl (rel, Feature i rs, ch) = Err e'
-                               /\ (e = FlamaException -> e' = FlamaException)
+    | Err e => exists e', foldM F chl (rel, Feature i rs, ch) = Err e'
+                          /\ (e = FlamaException -> e' = FlamaException)
     end.
   Proof.
     induction chl as [|c cs IH]; intros Hrec p rel i rs ch.
@@ -386,13 +360,13 @@ Section Loop.
     cbn [gl_goc]. rewrite foldM_cons, HF.
     pose proof (Hrec c (or_introl eq_refl) (here ++ [wh p]) (Some (Feature i rs))) as Hc.
     destruct (rec (here ++ [wh p]) c) as [pc|e]; cbn [rmap] in Hc; cbn in Hc.
-    2:{ intros HPp. destruct (Hc HPp) as (e' & -> & Hfl). cbn [bind]. exists e'. split; [reflexivity|exact Hfl]. }
+    2:{ destruct Hc as (e' & -> & Hfl). cbn [bind]. exists e'. split; [reflexivity|exact Hfl]. }
     rewrite Hc. cbn [bind].
     pose proof (child_opt_agree fi c) as Ho.
     destruct (gl_child_opt fi c) as [o|e].
-    2:{ intros HPp. destruct (Ho (HP HPp)) as (e' & -> & Hfl). cbn [bind]. exists e'. split; [reflexivity|exact Hfl]. }
+    2:{ destruct Ho as (e' & -> & Hfl). cbn [bind]. exists e'. split; [reflexivity|exact Hfl]. }
     destruct Ho as (ov & -> & Hov). cbn [bind]. rewrite Hov.
-    assert (Hcs : forall c0, In c0 cs -> forall h par, agreeP P (rmap erase (rec h c0)) (crec par c0)).
+    assert (Hcs : forall c0, In c0 cs -> forall h par, agree (rmap erase (rec h c0)) (crec par c0)).
     { intros c0 Hin. apply Hrec. right. exact Hin. }
     unfold code_upd. destruct plain eqn:Epl.
     - cbn [py_add_relation].
@@ -429,99 +403,98 @@ Ltac step_agree H :=
       let e := fresh "e" in let e' := fresh "e'" in let Hfl := fresh "Hfl" in let v := fresh "v" in
       destruct m as [v|e]; cbn [agree] in H;
       [ rewrite H; cbn [bind]
-      | destruct H as (e' & -> & Hfl); cbn [bind rmap]; cbn; intros _; exists e'; (split; [reflexivity|exact Hfl]) ]
+      | destruct H as (e' & -> & Hfl); cbn [bind rmap]; cbn; exists e'; (split; [reflexivity|exact Hfl]) ]
   end.
 
 Lemma src_glencoe_tree_agree : forall w fi fuel fuel' here parent par node,
   (aval_depth node <= fuel)%nat -> (aval_depth node <= fuel')%nat ->
-  agreeP (gl_optional_bool fi) (rmap erase (glencoe_parse_tree fuel' fi here parent node))
-         (py_GlencoeReader__parse_tree fuel w par node fi).
+  agree (rmap erase (glencoe_parse_tree fuel' fi here parent node))
+        (py_GlencoeReader__parse_tree fuel w par node fi).
 Proof.
   intros w fi fuel. induction fuel as [|fuel IH]; intros fuel' here parent par node Hf Hf'.
   { pose proof (depth_pos node). lia. }
   destruct fuel' as [|fuel']. { pose proof (depth_pos node). lia. }
   rewrite glencoe_parse_tree_S. cbn [py_GlencoeReader__parse_tree].
   rewrite (aval_get_jget node "id").
-  destruct (jget "id" node) as [fid|e]; cbn [bind]; [|apply agreeP_refl].
+  destruct (jget "id" node) as [fid|e]; cbn [bind]; [|apply agree_refl].
   pose proof (agree_finfo_get fi fid "type") as Hty. step_agree Hty. rename v into tyv.
   pose proof (agree_finfo_get fi fid "name") as Hnm. step_agree Hnm. rename v into nmv.
   destruct nmv as [| nb | nz | nr | fname | nl | nkv];
-    try (destruct tyv; cbn [jstr]; apply agreeP_flama).
+    try (destruct tyv; cbn [jstr]; apply agree_flama).
   destruct tyv as [| tb | tz | tr | fty | tl | tkv]; cbn [jstr bind negb];
-    try apply agreeP_flama.
+    try apply agree_flama.
   rewrite known_type_existsb.
-  destruct (gl_known_type fty) eqn:Ekn; cbn [negb]; [|apply agreeP_flama].
+  destruct (gl_known_type fty) eqn:Ekn; cbn [negb]; [|apply agree_flama].
   rewrite aval_has_jhas.
   destruct (jhas "children" node); [|cbn; reflexivity].
   rewrite (aval_get_jget node "children").
-  destruct (jget "children" node) as [chv|e] eqn:Ech; cbn [bind]; [|apply agreeP_refl].
+  destruct (jget "children" node) as [chv|e] eqn:Ech; cbn [bind]; [|apply agree_refl].
   destruct chv as [| cb | cz | cr | cs | chl | ckv]; cbn [jlist bind];
-    try (apply agreeP_err; discriminate).
+    try (apply agree_err; discriminate).
   (* the loop *)
   match goal with
   | |- context [foldM ?F chl (?r0, Feature ?i0 [], [])] =>
-      pose proof (gl_loop_agree (gl_optional_bool fi) fi (fun H => H)
+      pose proof (gl_loop_agree fi
                     (fun h c => glencoe_parse_tree fuel' fi h (PPath here) c)
                     (fun par c => py_GlencoeReader__parse_tree fuel w par c fi)
                     here (gl_where (String.eqb fty "FEATURE") (gl_mand fi chl)) (String.eqb fty "FEATURE") F
                     (fun rel f ch c => eq_refl) chl) as Hloop
   end.
   assert (Hkids : forall c, In c chl -> forall h par0,
-            agreeP (gl_optional_bool fi) (rmap erase (glencoe_parse_tree fuel' fi h (PPath here) c))
-                   (py_GlencoeReader__parse_tree fuel w par0 c fi)).
+            agree (rmap erase (glencoe_parse_tree fuel' fi h (PPath here) c))
+                  (py_GlencoeReader__parse_tree fuel w par0 c fi)).
   { intros c Hin h par0. pose proof (depth_child node (VList chl) chl c Ech eq_refl Hin). apply IH; lia. }
   specialize (Hloop Hkids 0%nat None (mk_info fname) [] []).
   unfold mk_info in Hloop.
   destruct (gl_goc (fun h c => glencoe_parse_tree fuel' fi h (PPath here) c) fi here
               (gl_where (String.eqb fty "FEATURE") (gl_mand fi chl)) 0 chl) as [kids|e].
-  2:{ cbn [rmap]. cbn. intros HPp. destruct (Hloop HPp) as (e' & -> & Hfl). cbn [bind].
+  2:{ cbn [rmap]. cbn. destruct Hloop as (e' & -> & Hfl). cbn [bind].
       exists e'. split; [reflexivity|exact Hfl]. }
   destruct Hloop as (rel' & ->). cbn [bind app].
   unfold gl_build, kids_rels, kids_group, mk_info.
   destruct (String.eqb fty "FEATURE") eqn:Epl; cbn [negb rmap].
-  { cbn [agreeP]. rewrite erase_unfold, map_map. reflexivity. }
+  { cbn [agree]. rewrite erase_unfold, map_map. reflexivity. }
   destruct (map fst (filter (fun ko : pfeature * bool => snd ko) kids)) as [|g gs] eqn:Eg;
     cbn [map py_is_nil negb rmap].
-  { cbn [agreeP]. rewrite erase_unfold, map_map. reflexivity. }
+  { cbn [agree]. rewrite erase_unfold, map_map. reflexivity. }
   unfold gl_grp.
   destruct (String.eqb fty "XOR") eqn:Exor.
-  { cbn [rmap agreeP py_add_relation]. rewrite erase_unfold, map_app, map_map. reflexivity. }
+  { cbn [rmap agree py_add_relation]. rewrite erase_unfold, map_app, map_map. reflexivity. }
   destruct (String.eqb fty "OR") eqn:Eor.
-  { cbn [rmap agreeP py_add_relation]. rewrite erase_unfold, map_app, map_map.
+  { cbn [rmap agree py_add_relation]. rewrite erase_unfold, map_app, map_map.
     unfold py_len. cbn [List.length map]. rewrite !map_length. reflexivity. }
   unfold gl_known_type in Ekn. rewrite Epl, Exor, Eor in Ekn. cbn [orb] in Ekn. rewrite Ekn.
   pose proof (agree_finfo_get fi fid "min") as Hmin. step_agree Hmin. rename v into cmin.
   pose proof (agree_finfo_get fi fid "max") as Hmax. step_agree Hmax. rename v into cmax.
   destruct cmin as [| ab | az | ar | as_ | al | akv]; cbn [jint foldM bind rmap];
-    try apply agreeP_refl;
+    try apply agree_refl;
   destruct cmax as [| bb | bz | br | bs | bl | bkv]; cbn [jint foldM bind rmap];
-    try apply agreeP_refl.
-  cbn [agreeP py_add_relation]. rewrite erase_unfold, map_app, map_map. reflexivity.
+    try apply agree_refl.
+  cbn [agree py_add_relation]. rewrite erase_unfold, map_app, map_map. reflexivity.
 Qed.
 
 (* ---- the constraints: for name, info in ctcs_info.items() ---- *)
-Lemma ctc_loop_agree (P : Prop) (fm_ : string * aval -> result ctc) (g : aval -> result node)
+Lemma ctc_loop_agree (fm_ : string * aval -> result ctc) (g : aval -> result node)
   (F : list ctc -> string * aval -> result (list ctc)) :
   (forall acc k v, F acc (k, v) = bind (g v) (fun n => Ok (acc ++ [{| c_name := k; c_ast := n |}]))) ->
   forall l,
-  (forall kc, In kc l -> agreeP P (fm_ kc) (bind (g (snd kc)) (fun n => Ok {| c_name := fst kc; c_ast := n |}))) ->
-  forall acc, agreeP P (rmap (fun cs => acc ++ cs) (mapM fm_ l)) (foldM F l acc).
+  (forall kc, In kc l -> agree (fm_ kc) (bind (g (snd kc)) (fun n => Ok {| c_name := fst kc; c_ast := n |}))) ->
+  forall acc, agree (rmap (fun cs => acc ++ cs) (mapM fm_ l)) (foldM F l acc).
 Proof.
   intros HF. induction l as [|[k v] l IH]; intros Hl acc.
   { cbn. rewrite app_nil_r. reflexivity. }
   cbn [mapM]. rewrite foldM_cons, HF.
   pose proof (Hl (k, v) (or_introl eq_refl)) as Hkv. cbn [fst snd] in Hkv.
-  destruct (fm_ (k, v)) as [c|e]; cbn [agreeP] in Hkv.
-  2:{ cbn. intros HP. destruct (g v) as [n|e0]; cbn [bind] in *.
-      - destruct (Hkv HP) as (e' & He' & _). discriminate He'.
-      - destruct (Hkv HP) as (e' & He' & Hfl). injection He' as <-.
-        exists e0. split; [reflexivity|exact Hfl]. }
+  destruct (fm_ (k, v)) as [c|e]; cbn [agree] in Hkv.
+  2:{ cbn. destruct Hkv as (e' & He' & Hfl). destruct (g v) as [n|e0]; cbn [bind] in *.
+      - discriminate He'.
+      - injection He' as <-. exists e0. split; [reflexivity|exact Hfl]. }
   destruct (g v) as [n|e0]; cbn [bind] in Hkv; [|discriminate]. injection Hkv as <-. cbn [bind].
   assert (Hl' : forall kc, In kc l ->
-            agreeP P (fm_ kc) (bind (g (snd kc)) (fun n => Ok {| c_name := fst kc; c_ast := n |}))).
+            agree (fm_ kc) (bind (g (snd kc)) (fun n => Ok {| c_name := fst kc; c_ast := n |}))).
   { intros kc Hin. apply Hl. right. exact Hin. }
   specialize (IH Hl' (acc ++ [{| c_name := k; c_ast := n |}])).
-  destruct (mapM fm_ l) as [cs|e]; cbn [rmap agreeP] in IH |- *.
+  destruct (mapM fm_ l) as [cs|e]; cbn [rmap agree] in IH |- *.
   - rewrite IH, <- app_assoc. reflexivity.
   - exact IH.
 Qed.
@@ -532,19 +505,19 @@ Proof.
   pose proof (fold_max_in' (fun p : string * aval => aval_depth (snd p)) kv kc Hin). lia.
 Qed.
 
-Lemma src_glencoe_ctcs_agree : forall (P : Prop) w fi fuel ckv,
+Lemma src_glencoe_ctcs_agree : forall w fi fuel ckv,
   (aval_depth (VMap ckv) <= fuel)%nat ->
-  agreeP P (mapM (fun kc : string * aval =>
-                    match glencoe_parse_ctc (aval_depth (snd kc)) fi (snd kc) with
-                    | Err e => Err e
-                    | Ok n => Ok {| c_name := fst kc; c_ast := n |}
-                    end) ckv)
-           (py_GlencoeReader__parse_constraints fuel w (VMap ckv) fi).
+  agree (mapM (fun kc : string * aval =>
+                 match glencoe_parse_ctc (aval_depth (snd kc)) fi (snd kc) with
+                 | Err e => Err e
+                 | Ok n => Ok {| c_name := fst kc; c_ast := n |}
+                 end) ckv)
+        (py_GlencoeReader__parse_constraints fuel w (VMap ckv) fi).
 Proof.
-  intros P w fi fuel ckv Hf. unfold py_GlencoeReader__parse_constraints. cbn [bind].
+  intros w fi fuel ckv Hf. unfold py_GlencoeReader__parse_constraints. cbn [bind].
   match goal with
   | |- context [foldM ?F ckv []] =>
-      pose proof (ctc_loop_agree P
+      pose proof (ctc_loop_agree
                     (fun kc : string * aval =>
                        match glencoe_parse_ctc (aval_depth (snd kc)) fi (snd kc) with
                        | Err e => Err e
@@ -554,34 +527,31 @@ Proof.
                     (fun acc k v => eq_refl) ckv) as Hloop
   end.
   assert (Hl : forall kc : string * aval, In kc ckv ->
-            agreeP P (match glencoe_parse_ctc (aval_depth (snd kc)) fi (snd kc) with
-                      | Err e => Err e
-                      | Ok n => Ok {| c_name := fst kc; c_ast := n |}
-                      end)
-                   (bind (py_GlencoeReader__parse_ast_constraint fuel w (snd kc) fi)
-                         (fun n => Ok {| c_name := fst kc; c_ast := n |}))).
+            agree (match glencoe_parse_ctc (aval_depth (snd kc)) fi (snd kc) with
+                   | Err e => Err e
+                   | Ok n => Ok {| c_name := fst kc; c_ast := n |}
+                   end)
+                  (bind (py_GlencoeReader__parse_ast_constraint fuel w (snd kc) fi)
+                        (fun n => Ok {| c_name := fst kc; c_ast := n |}))).
   { intros kc Hin. pose proof (depth_in_map ckv kc Hin) as Hd.
-    apply agree_agreeP. apply agree_bind.
+    apply agree_bind.
     - apply src_glencoe_agree; lia.
     - intros n _. apply agree_refl. }
   specialize (Hloop Hl []).
-  destruct (mapM _ ckv) as [cs|e]; cbn [rmap agreeP app] in Hloop |- *.
+  destruct (mapM _ ckv) as [cs|e]; cbn [rmap agree app] in Hloop |- *.
   - rewrite Hloop. reflexivity.
-  - intros HP. destruct (Hloop HP) as (e' & -> & Hfl). cbn [bind]. exists e'. split; [reflexivity|exact Hfl].
+  - destruct Hloop as (e' & -> & Hfl). cbn [bind]. exists e'. split; [reflexivity|exact Hfl].
 Qed.
 
 (* ---- transform() ---- *)
-Definition gl_doc_optional_bool (doc : aval) : Prop :=
-  forall fv, jget "features" doc = Ok fv -> gl_optional_bool fv.
-
 Lemma src_glencoe_read_agree : forall w doc fuel, (aval_depth doc <= fuel)%nat ->
-  agreeP (gl_doc_optional_bool doc) (rmap erase_fm (glencoe_read doc)) (py_GlencoeReader_transform fuel w doc).
+  agree (rmap erase_fm (glencoe_read doc)) (py_GlencoeReader_transform fuel w doc).
 Proof.
   intros w doc fuel Hf. unfold glencoe_read, py_GlencoeReader_transform.
   rewrite (aval_get_jget doc "features").
-  destruct (jget "features" doc) as [fv|e] eqn:Efv; cbn [bind]; [|apply agreeP_refl].
+  destruct (jget "features" doc) as [fv|e] eqn:Efv; cbn [bind]; [|apply agree_refl].
   rewrite (aval_get_jget doc "tree").
-  destruct (jget "tree" doc) as [tv|e] eqn:Etv; cbn [bind]; [|apply agreeP_refl].
+  destruct (jget "tree" doc) as [tv|e] eqn:Etv; cbn [bind]; [|apply agree_refl].
   destruct doc as [| db | dz | dr | ds | dl | kv]; try discriminate Efv.
   rewrite aval_get_default_assoc.
   set (cv := match assoc "constraints" kv with Some x => x | None => VMap [] end).
@@ -595,16 +565,16 @@ Proof.
   clearbody cv.
   pose proof (depth_of_jget _ _ _ Etv) as Hdt.
   pose proof (src_glencoe_tree_agree w fv fuel (aval_depth tv) [] PNone None tv ltac:(lia) (le_n _)) as Ht.
-  destruct (glencoe_parse_tree (aval_depth tv) fv [] PNone tv) as [pr|e]; cbn [rmap agreeP] in Ht.
-  2:{ cbn [rmap agreeP]. intros HP. destruct (Ht (HP fv Efv)) as (e' & -> & Hfl). cbn [bind].
+  destruct (glencoe_parse_tree (aval_depth tv) fv [] PNone tv) as [pr|e]; cbn [rmap agree] in Ht.
+  2:{ cbn [rmap agree]. destruct Ht as (e' & -> & Hfl). cbn [bind].
       exists e'. split; [reflexivity|exact Hfl]. }
   rewrite Ht. cbn [bind].
   destruct cv as [| cb | cz | cr | cs | cl | ckv];
-    try (cbn [py_GlencoeReader__parse_constraints bind rmap]; apply agreeP_refl).
-  pose proof (src_glencoe_ctcs_agree (gl_doc_optional_bool (VMap kv)) w fv fuel ckv Hcv) as Hc.
-  destruct (mapM _ ckv) as [cs|e]; cbn [rmap agreeP] in Hc |- *.
+    try (cbn [py_GlencoeReader__parse_constraints bind rmap]; apply agree_refl).
+  pose proof (src_glencoe_ctcs_agree w fv fuel ckv Hcv) as Hc.
+  destruct (mapM _ ckv) as [cs|e]; cbn [rmap agree] in Hc |- *.
   - rewrite Hc. cbn [bind]. reflexivity.
-  - intros HP. destruct (Hc HP) as (e' & -> & Hfl). cbn [bind]. exists e'. split; [reflexivity|exact Hfl].
+  - destruct Hc as (e' & -> & Hfl). cbn [bind]. exists e'. split; [reflexivity|exact Hfl].
 Qed.
 
 Theorem src_glencoe_read : forall w doc pm, glencoe_read doc = Ok pm ->
@@ -614,53 +584,41 @@ Proof.
   pose proof (src_glencoe_read_agree w doc fuel Hf) as H. rewrite Hm in H. exact H.
 Qed.
 
-(* The statement asked for,
-     forall w doc e, glencoe_read doc = Err e ->
-       exists n0, forall fuel, (n0 <= fuel)%nat -> exists e', py_GlencoeReader_transform fuel w doc = Err e'
-   is FALSE: the model rejects an "optional" entry that is not a JSON boolean (jbool), the code takes the truth
-   value of whatever the entry is (`if optional:`).  The witness: *)
+(* a document the model rejects is rejected by the code (the model reads the "optional" entry of a feature
+   with Python's truth value, jtruthy, as the code does: no hypothesis on the document is needed) *)
+Theorem src_glencoe_read_error : forall w doc e, glencoe_read doc = Err e ->
+  exists n0, forall fuel, (n0 <= fuel)%nat -> exists e', py_GlencoeReader_transform fuel w doc = Err e'.
+Proof.
+  intros w doc e Hm. exists (aval_depth doc). intros fuel Hf.
+  pose proof (src_glencoe_read_agree w doc fuel Hf) as H. rewrite Hm in H. cbn [rmap agree] in H.
+  destruct H as (e' & He' & _). exists e'. exact He'.
+Qed.
+
+(* and where the model names the library error the code raises it too *)
+Theorem src_glencoe_read_library_error : forall w doc, glencoe_read doc = Err FlamaException ->
+  exists n0, forall fuel, (n0 <= fuel)%nat -> py_GlencoeReader_transform fuel w doc = Err FlamaException.
+Proof.
+  intros w doc Hm. exists (aval_depth doc). intros fuel Hf.
+  pose proof (src_glencoe_read_agree w doc fuel Hf) as H. rewrite Hm in H. cbn [rmap agree] in H.
+  destruct H as (e' & He' & Hfl). rewrite He', (Hfl eq_refl). reflexivity.
+Qed.
+
+(* the document that used to separate the model (jbool: a JSON boolean or an error) from the code: an
+   "optional" entry that is the integer 1 is now read by both as "optional" *)
 Definition gl_doc_optional_int : aval :=
   VMap [("features", VMap [("A", VMap [("name", VStr "A"); ("type", VStr "FEATURE")]);
                            ("B", VMap [("name", VStr "B"); ("type", VStr "FEATURE"); ("optional", VInt 1)])]);
         ("tree", VMap [("id", VStr "A"); ("children", VList [VMap [("id", VStr "B")]])])]%string.
 
-Example src_glencoe_read_error_counterexample : forall w,
-  glencoe_read gl_doc_optional_int = Err OtherExn /\
+Example src_glencoe_read_optional_int : forall w,
+  rmap erase_fm (glencoe_read gl_doc_optional_int)
+    = Ok {| root := Feature (mk_info "A") [Relation 0 1 [Feature (mk_info "B") []]]; ctcs := [] |} /\
   forall fuel, py_GlencoeReader_transform (2 + fuel) w gl_doc_optional_int
                = Ok {| root := Feature (mk_info "A") [Relation 0 1 [Feature (mk_info "B") []]]; ctcs := [] |}.
 Proof. intros w. split; [vm_compute; reflexivity|]. intros fuel. vm_compute. reflexivity. Qed.
 
-Theorem src_glencoe_read_error_false :
-  ~ (forall w doc e, glencoe_read doc = Err e ->
-       exists n0, forall fuel, (n0 <= fuel)%nat -> exists e', py_GlencoeReader_transform fuel w doc = Err e').
-Proof.
-  intros H. pose (w := py_GlencoeReader_new "").
-  destruct (src_glencoe_read_error_counterexample w) as [Hm Hc].
-  destruct (H w _ _ Hm) as (n0 & Hn0).
-  destruct (Hn0 (2 + n0)%nat ltac:(lia)) as (e' & He'). rewrite Hc in He'. discriminate He'.
-Qed.
-
-(* the strongest true variant: every "optional" entry of the features table is a boolean *)
-Theorem src_glencoe_read_error : forall w doc e, gl_doc_optional_bool doc -> glencoe_read doc = Err e ->
-  exists n0, forall fuel, (n0 <= fuel)%nat -> exists e', py_GlencoeReader_transform fuel w doc = Err e'.
-Proof.
-  intros w doc e HP Hm. exists (aval_depth doc). intros fuel Hf.
-  pose proof (src_glencoe_read_agree w doc fuel Hf) as H. rewrite Hm in H. cbn [rmap agreeP] in H.
-  destruct (H HP) as (e' & He' & _). exists e'. exact He'.
-Qed.
-
-(* and where the model names the library error the code raises it too *)
-Theorem src_glencoe_read_library_error : forall w doc, gl_doc_optional_bool doc ->
-  glencoe_read doc = Err FlamaException ->
-  exists n0, forall fuel, (n0 <= fuel)%nat -> py_GlencoeReader_transform fuel w doc = Err FlamaException.
-Proof.
-  intros w doc HP Hm. exists (aval_depth doc). intros fuel Hf.
-  pose proof (src_glencoe_read_agree w doc fuel Hf) as H. rewrite Hm in H. cbn [rmap agreeP] in H.
-  destruct (H HP) as (e' & He' & Hfl). rewrite He', (Hfl eq_refl). reflexivity.
-Qed.
-
 Print Assumptions src_glencoe_tree_agree.
-Print Assumptions src_glencoe_read_error_false.
 Print Assumptions src_glencoe_read_error.
 Print Assumptions src_glencoe_read_library_error.
 Print Assumptions src_glencoe_read.
+Print Assumptions src_glencoe_read_optional_int.
